@@ -101,6 +101,12 @@ class C12(Property):
                 ops += ["slice:0:%d:%d" % p1, "slice:0:%d:%d" % p2, "eqv:%d:%d" % (nviews, nviews + 1), "eqv:%d:%d" % (nviews + 1, nviews)]
                 nviews += 2
             ops += ["slice:0:%d:%d" % (bnd[-1], bnd[-1] + 1), "slice:0:2:1", "try:0:1", "try:0:9"]; nviews += 2
+            # the same slices given as ops ranges: a..b, a.., ..b, .. (and out of range / reversed)
+            x, y = pairs[rng.below(len(pairs))]
+            for form in ("%d:%d" % (x, y), "%d:_" % x, "_:%d" % y, "_:_", "%d:_" % (bnd[-1] + 1), "_:%d" % (bnd[-1] + 1), "%d:%d" % (y + 1, y)):
+                ops.append("sliceo:0:" + form); v = nviews; nviews += 1
+                ops += ["str:%d" % v, "len:%d" % v]
+            ops += ["sliceo:2:_:_", "str:%d" % nviews]; nviews += 1
             res.append(("random", "X %s / %s | %s" % (" ".join(a), " ".join(b), " ".join(ops))))
         # views of inner nodes
         for i in range(n // 5):
@@ -152,12 +158,13 @@ class C12(Property):
                     views.append(VRef(t.elem[path].text_of().encode("utf-8"))); exp = "ok"
                 else:
                     views.append(None); exp = "-"
-            elif p[0] == "slice":
+            elif p[0] in ("slice", "sliceo"):
                 v = view(1)
                 if v is None:
                     views.append(None); exp = "-"
                 else:
-                    a, b = int(p[2]), int(p[3])
+                    a = 0 if p[2] == "_" else int(p[2])
+                    b = len(v.b) if p[3] == "_" else int(p[3])
                     if a <= b <= len(v.b):
                         bnd = boundaries(v.b) if v.aligned else []
                         views.append(VRef(v.b[a:b], v.aligned and a in bnd and b in bnd)); exp = "len=%d" % (b - a)
